@@ -93,6 +93,7 @@ type executor struct {
 	cases        int
 	steps        int
 	cerrs        int
+	nruns        int
 	unparsable   int
 	unparsableEx []string
 	errs         map[string]int
@@ -336,6 +337,7 @@ func (x *executor) run(k kase) {
 	}
 	line["runs"] = runs
 	x.steps += n
+	x.nruns += len(k.runs)
 	f := x.pick()
 	if x.cases <= 3 {
 		f = 0
@@ -352,6 +354,7 @@ func (x *executor) run(k kase) {
 func (x *executor) finish(rule string, exhaustive bool) {
 	x.r.Extra["cases"] = x.cases
 	x.r.Extra["api_calls"] = x.steps
+	x.r.Extra["histories"] = x.nruns
 	x.r.Extra["compile_errors"] = x.cerrs
 	x.r.Extra["text_form_not_parsable"] = x.unparsable
 	x.r.Extra["text_form_not_parsable_examples"] = x.unparsableEx
